@@ -323,6 +323,21 @@ func (c *Client) sendRecv(tm message, rm message) error {
 	err := send(c.log, c.conn, tag(t), tm)
 	c.sendMu.Unlock()
 	if err != nil {
+		// Nobody is going to wait for this response any more: withdraw it.
+		// Otherwise a later receive error would complete it after it has
+		// gone back to the pool, and whoever picks it up next would see
+		// a completion that is not theirs.
+		c.pendingMu.Lock()
+		if c.pending[tag(t)] == resp {
+			delete(c.pending, tag(t))
+		} else {
+			// A receive error got there first and completed it already.
+			select {
+			case <-resp.done:
+			default:
+			}
+		}
+		c.pendingMu.Unlock()
 		return fmt.Errorf("send: %w", err)
 	}
 
